@@ -44,6 +44,20 @@ class Req:
             self.method, self.query, self.done, self.status, self.exc)
 
 
+class GatewayWriteError(Exception):
+    """What a WebSocket library may raise from a write on a dead connection when it is neither
+    an OSError nor a RuntimeError (protocol-state errors of wsproto / h11 style)."""
+
+
+def write_error(conn, msg):
+    kind = getattr(conn, 'fail_exc', None)
+    if kind == 'RuntimeError':
+        return RuntimeError(msg)
+    if kind == 'Exception':
+        return GatewayWriteError(msg)
+    return OSError(msg)
+
+
 class WsConn:
     """One WebSocket connection as seen by the gateway / the simulated peer."""
 
